@@ -89,12 +89,17 @@ int main(int argc, char **argv) {
       st.cls("hot-rounds"); }
     else for (auto &s : scripts) { s.skew_ns = rng.below(200000); s.spin = (int)rng.below(2000); for (int i = 0; i < opsper; i++) { Op o; o.kind = (int)rng.below(4); o.key = (int)rng.below(KU.size()); if (rng.chance(1, 3)) o.key = (int)(round % KU.size()); o.n = (int)rng.below(1000); s.ops.push_back(o); } }
     std::vector<std::vector<std::string>> expect(nt), got(nt);
-    for (int t = 0; t < nt; t++) expect[t] = run_script(scripts[t], false);
+    // round 0 is COLD: the very first signing/verifying calls of the process are the concurrent ones (lazily initialised
+    // state - a one-time table, a cached handle - is only ever raced in that window); its sequential reference run comes afterwards
+    bool cold = round == 0;
+    if (cold) { st.cls("cold-rounds(first-library-calls-of-the-process-are-concurrent)"); for (auto &sc : scripts) sc.skew_ns = rng.below(3000); }
+    if (!cold) for (int t = 0; t < nt; t++) expect[t] = run_script(scripts[t], false);
     long ov0 = g_overlaps.load();
     std::vector<std::thread> th;
     for (int t = 0; t < nt; t++) th.emplace_back([&, t] { got[t] = run_script(scripts[t], true); });
     for (auto &x : th) x.join();
     long ov = g_overlaps.load() - ov0;
+    if (cold) for (int t = 0; t < nt; t++) expect[t] = run_script(scripts[t], false);
     st.evaluations++; st.cls("rounds"); st.cls("threads=" + std::to_string(nt)); st.cls("calls-overlapping-on-the-same-key", ov);
     if (ov > 0) st.nontrivial(mix(mix(a.seed, a.worker), mix(round, prov)));
     for (int t = 0; t < nt; t++) if (got[t] != expect[t]) {
